@@ -104,9 +104,9 @@ theorem mulGF_one_left (y : Nat) : mulGF (2 ^ 127) y = y := by
   have h1 : xsum 127 (fun i => if (2 ^ 127).testBit (127 - (i + 1)) then Mpow (i + 1) y else 0)
       = xsum 127 (fun _ => 0) := by
     apply xsum_congr; intro i _
-    rw [Nat.testBit_two_pow]
-    have : ¬ (127 = 127 - (i + 1)) := by omega
-    simp [this]
+    have : decide (127 = 127 - (i + 1)) = false := decide_eq_false (by omega)
+    rw [Nat.testBit_two_pow, this]
+    rfl
   rw [h1, xsum_const_zero, Nat.xor_zero, Nat.testBit_two_pow]
   simp [Mpow]
 
@@ -130,6 +130,8 @@ theorem mulGF_comm {x y : Nat} (hx : x < 2 ^ 128) (hy : y < 2 ^ 128) : mulGF x y
     _ = mulGF y (mulGF x (2 ^ 127)) := mulGF_lin_comm (isLin_mulGF x) (mulGF_M x) y (2 ^ 127)
     _ = mulGF y x := by rw [mulGF_one_right hx]
 
+set_option linter.unusedVariables false in
+/-- (`hx` is not needed; it is kept so that the three factors are treated alike) -/
 theorem mulGF_assoc {x y z : Nat} (hx : x < 2 ^ 128) (hy : y < 2 ^ 128) (hz : z < 2 ^ 128) :
     mulGF (mulGF x y) z = mulGF x (mulGF y z) := by
   calc mulGF (mulGF x y) z = mulGF z (mulGF x y) := mulGF_comm (mulGF_lt hy) hz
